@@ -1043,7 +1043,32 @@ pub fn scenario(g: &mut Gen) -> Vec<String> {
     v.push(format!("st addres r0 {}", n0));
     g.res.push(("r0".into(), n0));
     let other = format!("s{}", 1 + g.rng.below(2));
-    match g.rng.below(8) {
+    match g.rng.below(9) {
+        8 => {
+            // a metadata annotation reached along two paths when its referent is removed: directly (it names the
+            // referent) and through an annotation on another metadata annotation of the same referent
+            v.push("st adddata s0 d0 k0 s:v0".into());
+            g.data_ids.push(("s0".into(), "d0".into()));
+            g.sets.push("s0".into());
+            let (sel, rm) = match g.rng.below(4) {
+                0 => ("S:s0".to_string(), "st rmset s0".to_string()),
+                1 => ("R:r0".to_string(), "st rmres r0".to_string()),
+                2 => ("K:s0:k0".to_string(), format!("st rmkey s0 k0 {}", g.rng.below(2))),
+                _ => ("D:s0:d0".to_string(), format!("st rmdata s0 d0 {}", g.rng.below(2))),
+            };
+            v.push(format!("st annot a0 {}", sel));
+            v.push("st annot a1 A:a0".into());
+            let depth2 = g.rng.chance(40);
+            if depth2 { v.push("st annot a2 A:a1".into()); }
+            let via = if depth2 { "a2" } else { "a1" };
+            let kind = *g.rng.pick(&['M', 'C', 'X']);
+            v.push(if g.rng.chance(50) { format!("st annot a3 {}[{};A:{}]", kind, sel, via) } else { format!("st annot a3 {}[A:{};{}]", kind, via, sel) });
+            g.anns.extend(["a0".to_string(), "a1".into(), "a3".into()]);
+            if depth2 { g.anns.push("a2".into()); }
+            g.nann = if depth2 { 4 } else { 3 };
+            if g.rng.chance(30) { v.push("st annot ~ T:r0:b0:b1 s1/k0/i:1".into()); g.nann += 1; }
+            v.push(rm);
+        }
         7 => {
             // a range-compressed run of text selectors followed by several dataset / key / data selectors
             v.push("st adddata s0 d0 k0 s:v0".into());
